@@ -4,6 +4,7 @@ import SpoxModel.Model.Named
 import SpoxModel.Model.Naming
 import SpoxModel.Model.InlineCheck
 import SpoxModel.Generated.Dtypes
+import SpoxModel.Model.InternalReq
 /-! Line-protocol handler for C02: (a) `ScopeSpace` operation sequences, (b) the structural checker on
     a named graph (the real ModelProto), (c) the naming model on an emission tree. -/
 namespace Drv.C02
@@ -201,6 +202,15 @@ def handle (req : Json) : Json :=
         | Json.null => (pure none : Except String (Option Types.Ty))
         | _ => do let t ← parseTensor j; pure (some t))
       return Json.mkObj [("accept", InlineCheck.accepts Generated.Dtypes.table decls args)]
+    | "intro_req" =>
+      let ksJ ← req.getObjValAs? (Array String) "kinds"
+      let ks ← ksJ.toList.mapM (fun s => match s with
+        | "untyped" => pure InternalReq.Kind.untyped
+        | "tensor" => pure InternalReq.Kind.tensor
+        | "seq" => pure InternalReq.Kind.seq
+        | "optional" => pure InternalReq.Kind.optional
+        | _ => (throw "bad kind" : Except String InternalReq.Kind))
+      return Json.mkObj [("req", InternalReq.introReq ks)]
     | _ => throw "bad request kind") with
   | .ok j => j
   | .error e => Json.mkObj [("error", e)]
